@@ -224,6 +224,7 @@ def run(ctx: Ctx):
     run_latent_key_order(ctx)
     run_loop_nan_batches(ctx)
     run_array_nan_batches(ctx)
+    run_node_mix(ctx)
 
 
 def run_nan_batches(ctx: Ctx):
@@ -464,3 +465,39 @@ def run_array_nan_batches(ctx: Ctx):
                 if not systems.floats_close(np.ravel(y[k])[j], np.ravel(ys[k])[0]):
                     ctx.violate('C10:batch-vs-single', f'sample {j} of {k}: {float(np.ravel(y[k])[j])} in a batch whose sample {bad[0]} has a NaN inside its array input, '
                                 f'{float(np.ravel(ys[k])[0])} alone', case); break
+
+
+def run_node_mix(ctx: Ctx):
+    """batches that mix a training grid point (every coordinate on a node), samples with SOME coordinates on nodes and generic samples: whatever
+    the interpolator decides per batch about on-node handling, each sample must get the value it gets alone"""
+    import p_exact
+    rng = ctx.rng
+    for n in range(ctx.pick(6, 40)):
+        nx = rng.randint(2, 3); kpl = rng.randint(1, 2); levels = [rng.randint(1, 2) for _ in range(nx)]
+        domains = [(float(lo), float(lo) + rng.choice([1.0, 2.0, 4.0])) for lo in (rng.choice([-2, -1, 0, 1]) for _ in range(nx))]
+        comp, terms = p_exact.build_poly_component(rng, nx, 0, 1, levels, kpl, domains, name=f'nm{n}')
+        order = p_exact.random_order(rng, tuple(levels), rng.randint(3, 6))
+        p_exact.fill_terms(rng, terms, set(order), 0, nx, kpl)
+        p_exact.grow_to(comp, 0, order)
+        names = [f'x{k}' for k in range(nx)]
+        grids = [list(comp.training_data.x_grids[v]) for v in names]
+        rows = []
+        rows.append([rng.choice(g) for g in grids])                                               # a full tensor grid point
+        for _ in range(2):                                                                          # some coordinates on nodes
+            k0 = rng.randrange(nx)
+            rows.append([rng.choice(grids[k]) if k == k0 else float(comp.inputs[names[k]].normalize(np.array([domains[k][0] + (domains[k][1] - domains[k][0]) * rng.random()]))[0])
+                         for k in range(nx)])
+        rows.append([float(comp.inputs[names[k]].normalize(np.array([domains[k][0] + (domains[k][1] - domains[k][0]) * rng.random()]))[0]) for k in range(nx)])   # generic
+        case = {'node_mix': n, 'nx': nx, 'levels': levels, 'kpl': kpl, 'order': order, 'rows': rows}
+        ctx.case(case, nontrivial=True, kind='component-batch:node-mix')
+        singles = [float(np.ravel(comp.predict({v: np.array([r[k]]) for k, v in enumerate(names)}, index_set='train')['y0'])[0]) for r in rows]
+        for sub in ([0, 1, 2, 3], [1, 2, 3], [1, 3], [2, 0]):
+            xb = {v: np.array([rows[i][k] for i in sub]) for k, v in enumerate(names)}
+            yb = np.ravel(comp.predict(xb, index_set='train')['y0'])
+            for j, i in enumerate(sub):
+                if not systems.floats_close(yb[j], singles[i], rtol=1e-10, atol=1e-12):
+                    ctx.violate('C10:batch-vs-single', f'sample {rows[i]} = {float(yb[j])} in the batch of rows {sub} (row 0 is a training grid point, rows 1-2 have one coordinate '
+                                f'on a node), {singles[i]} alone', {**case, 'batch_rows': sub}); break
+            else:
+                continue
+            break
